@@ -88,6 +88,20 @@ func (w *worker) kill() {
 	w.cmd.Wait()
 }
 
+// finish lets an idle worker end by itself at end of input (so that a coverage-instrumented
+// child, tools/coverage.sh, writes its counters), and kills it if it does not within a second.
+func (w *worker) finish() {
+	w.in.Close()
+	done := make(chan struct{})
+	go func() { w.cmd.Wait(); close(done) }()
+	select {
+	case <-done:
+	case <-time.After(time.Second):
+		w.cmd.Process.Kill()
+		<-done
+	}
+}
+
 const (
 	stOK = iota
 	stDied
@@ -197,7 +211,7 @@ func main() {
 			go func() {
 				defer wg.Done()
 				w := startWorker()
-				defer func() { w.kill() }()
+				defer func() { w.finish() }()
 				for idx := range jobs {
 					tc := cases[idx]
 					res, st := w.run(tc, timeout)
